@@ -34,7 +34,7 @@ CLAIMED = {
 
 FULL = {
  'C01': dict(
-   text='Master refinement theorem for both index widths: from an initialised buffer, every history of insert/remove/get/get_mut/contains/lowest/len/is_empty/is_full/capacity (and growth, re-open) on the concrete model (header words + record array, with the Rust panic sites explicit) returns exactly what a capacity-bounded sorted association list returns, with no Panic/Fuel outcome. Proved through an indexed-tree layer (rotations, rebalancing from stored heights) and a representation relation to the array (link lemmas for every C function, including the successor splice of remove); clause corollaries (never overwrites, remove only that key, latest value, minimum key). Model tied to the crate on every run: random and exhaustive histories, single steps from every AVL shape up to 8/11 nodes and sparse Fibonacci shapes up to 12 levels, both handle disciplines, six layouts.',
+   text='Master refinement theorem for both index widths: from an initialised buffer, every history of insert/remove/get/get_mut/contains/lowest/len/is_empty/is_full/capacity (and growth, re-open) on the concrete model (header words + record array, with the Rust panic sites explicit) returns exactly what a capacity-bounded sorted association list returns, with no Panic/Fuel outcome. Proved through an indexed-tree layer (rotations, rebalancing from stored heights) and a representation relation to the array (link lemmas for every C function, including the successor splice of remove); clause corollaries (never overwrites, remove only that key, latest value, minimum key). Model tied to the crate on every run: random and exhaustive histories, single steps from every AVL shape up to 8/11 nodes and sparse Fibonacci shapes up to 12 levels, a state with more than 2^16 live entries, both handle disciplines, ten layouts. The handle is explicit in the model (Avl/Session.v): the same theorems are proved for a mutable view that stays open across operations, including a tree initialised with a capacity smaller than its buffer (36 session theorems), and the driver follows the handle discipline of the harness.',
    note=BASE_NOTE + 'Keys are integers (any totally ordered key type is order-isomorphic on a finite history); u32 tree for capacities below 2^32-1, u8 tree up to 255 (growth up to 254 records).',
    technique=TECH),
  'C04': dict(
@@ -58,7 +58,7 @@ FULL = {
    note=BASE_NOTE + 'u8 tree: total records at most 254 (the property\'s own bound); growing to exactly 255 records with a released slot outstanding panics in the model and in the crate and is outside the quantifier.',
    technique=TECH),
  'C09': dict(
-   text='Theorems: a refused insert (duplicate or full), a remove/take of an absent element and every query return the very same state (Leibniz), hence byte-identical encodings, for trees, hash set and array sets. Tie: buffer digest before/after every call the implementation itself reports as refused or that is a query; includes a hash value type whose equality ignores a payload and a one-byte prefix over 300 slots.',
+   text='Theorems: a refused insert (duplicate or full), a remove/take of an absent element and every query return the very same state (Leibniz), hence byte-identical encodings, for trees, hash set and array sets. Tie: buffer digest before/after every call the implementation itself reports as refused or that is a query; includes a hash value type whose equality ignores a payload, a one-byte prefix over 300 slots, and refused operations through a long-lived handle on a tree whose buffer is larger than its capacity (session theorems: same state, same bytes, same capacity word).',
    note=BASE_NOTE,
    technique=TECH),
  'C10': dict(
